@@ -235,9 +235,24 @@ def run_bigdisk(case, ctx, res):
             text += "# SPDX-License-Identifier: LicenseRef-hidden-b\n# SPDX-FileCopyrightText: 2003 Hidden B\n# " + END + "\n"
             text += fill * rng.randint(0, 40)
             text += "# SPDX-License-Identifier: LicenseRef-bottom\n# SPDX-FileCopyrightText: 2004 Visible Bottom\n# SPDX-SnippetEnd\n"
+            wl, wc = {"LicenseRef-top", "LicenseRef-bottom"}, {"SPDX-SnippetCopyrightText: 2001 Visible Top", "SPDX-FileCopyrightText: 2004 Visible Bottom"}
+            shape = j % 3
+            if shape == 1:
+                # plain header, then - beyond the 4 KiB window - an ignored *example* of a snippet, then a real snippet
+                text = "# SPDX-FileCopyrightText: 2001 Visible Top\n# SPDX-License-Identifier: LicenseRef-top\n" + fill * (70 + pre)
+                text += "# " + START + "\n# SPDX-SnippetBegin\n# SPDX-License-Identifier: LicenseRef-hidden-a\n# SPDX-SnippetCopyrightText: 2002 Hidden A\n# SPDX-SnippetEnd\n# " + END + "\n"
+                text += fill * inner
+                text += "# SPDX-SnippetBegin\n# SPDX-License-Identifier: LicenseRef-bottom\n# SPDX-SnippetCopyrightText: 2004 Visible Bottom\n# SPDX-SnippetEnd\n"
+                wc = {"SPDX-FileCopyrightText: 2001 Visible Top", "SPDX-SnippetCopyrightText: 2004 Visible Bottom"}
+            elif shape == 2:
+                # a block opened inside the window and closed far beyond it, real snippets after that
+                text = "# SPDX-FileCopyrightText: 2001 Visible Top\n# SPDX-License-Identifier: LicenseRef-top\n" + fill * (pre % 40)
+                text += "# " + START + "\n# SPDX-License-Identifier: LicenseRef-hidden-a\n# SPDX-FileCopyrightText: 2002 Hidden A\n" + fill * (80 + inner)
+                text += "# SPDX-License-Identifier: LicenseRef-hidden-b\n# " + END + "\n" + fill * 3
+                text += "# SPDX-SnippetBegin\n# SPDX-License-Identifier: LicenseRef-bottom\n# SPDX-SnippetCopyrightText: 2004 Visible Bottom\n# SPDX-SnippetEnd\n"
+                wc = {"SPDX-FileCopyrightText: 2001 Visible Top", "SPDX-SnippetCopyrightText: 2004 Visible Bottom"}
             (root / f"b{j}.py").write_text(text)
-            expected[f"b{j}.py"] = ({"LicenseRef-top", "LicenseRef-bottom"}, {"SPDX-SnippetCopyrightText: 2001 Visible Top", "SPDX-FileCopyrightText: 2004 Visible Bottom"},
-                                    (pre, inner))
+            expected[f"b{j}.py"] = (wl, wc, (pre, inner, ["whole-file-snippet", "ignored-snippet-example-beyond-window", "block-from-window-to-beyond"][shape]))
         r = run_cli(["--no-multiprocessing", "--root", str(root), "lint", "--json"], cwd=str(root))
         try:
             data = json.loads(r.stdout)
@@ -254,11 +269,11 @@ def run_bigdisk(case, ctx, res):
             gl = {x["value"] for x in f["spdx_expressions"]}
             gc = {x["value"] for x in f["copyrights"]}
             if gl != wl or gc != wc:
-                res.violation("block-across-buffer-boundary", f"big file, {shape[0]} filler lines before and {shape[1]} inside the block: lint reads "
+                res.violation("block-across-buffer-boundary", f"big file ({shape[2]}), {shape[0]} filler lines before and {shape[1]} inside the block: lint reads "
                               f"{sorted(gl)} / {sorted(gc)}, outside the block are {sorted(wl)} / {sorted(wc)}", shape=shape)
             else:
                 res.sigs.add(short_hash("big", shape))
-            res.cell("bigdisk")
+            res.cell("bigdisk:" + shape[2])
     finally:
         import shutil
 
@@ -291,6 +306,10 @@ def run_disk(case, ctx, res):
                 # nothing of what its ignore blocks enclose
                 text = ("# " if commented else "") + "SPDX-License-Identifier: MIT AND (0BSD OR)\n" + text  # first line: before any marker
                 exp = {"lic": set(), "cop": set(), "con": set()}
+            if rng.random() < 0.3:
+                # one line that closes a block and opens the next: the same blocks, written more tightly
+                pre_ = "# " if commented else ""
+                text = text.replace(pre_ + END + "\n" + pre_ + START, pre_ + END + " " + START)
             (root / f"f{j}.py").write_text(text)
             expected[f"f{j}.py"] = (exp, text, seq)
         r = run_cli(["--no-multiprocessing", "--root", str(root), "lint", "--json"], cwd=str(root))
@@ -313,6 +332,50 @@ def run_disk(case, ctx, res):
                               text=text, got=[sorted(got_l), sorted(got_c)], want=[sorted(exp["lic"]), sorted(exp["cop"])])
             if any(t in "SE" for t in seq) and any(t in "LC" for t in seq):
                 res.sigs.add(short_hash("disk", text))
+        # second phase: what a block encloses stays nobody's information when the file is annotated, and what is outside stays
+        for name, (exp, text, seq) in expected.items():
+            if "MIT AND (0BSD OR)" in text:
+                continue
+            # annotate regenerates the comment block it takes for the header; a marker *inside that block* goes the way of all
+            # free text in a replaced header, which is not this property's business: only files whose visible tags share no
+            # comment block with a marker are annotated here
+            inside, mixed, blk_vis, blk_mark = False, False, False, False
+            for t in list(seq) + ["N"]:
+                if t == "N":
+                    mixed = mixed or (blk_vis and blk_mark)
+                    blk_vis = blk_mark = False
+                    continue
+                if t == "S":
+                    inside, blk_mark = True, True
+                elif t == "E":
+                    inside, blk_mark = False, True
+                elif t in "LCB" and not inside:
+                    blk_vis = True
+            if mixed and text.lstrip().startswith("#"):
+                res.cell("annotate-skipped:marker-inside-the-header-block")
+                continue
+            ra = run_cli(["--no-multiprocessing", "--root", str(root), "annotate", "-c", "Phase Two", "-l", "LicenseRef-phase2", "--year", "2031",
+                          str(root / name)], cwd=str(root))
+            if ra.escaped:
+                res.violation("annotate-escaped", f"{ra.exc_type} while annotating a file with ignore blocks", text=text, tb=ra.exc_tb)
+                continue
+            if ra.exit_code != 0:
+                res.cell("annotate-refused")
+                continue
+            rl = run_cli(["--no-multiprocessing", "--root", str(root), "lint-file", str(root / name)], cwd=str(root))
+            try:
+                info = ctx.state["ex"].reuse_info_of_file(root / name, root / name, root)
+                got_l, got_c = {str(e) for e in info.spdx_expressions}, set(info.copyright_lines)
+            except Exception as e:  # noqa
+                got_l, got_c = {"raised " + type(e).__name__}, set()
+            want_l = exp["lic"] | {"LicenseRef-phase2"}
+            want_c = exp["cop"] | {"SPDX-FileCopyrightText: 2031 Phase Two"}
+            res.n += 1
+            if got_l != want_l or got_c != want_c:
+                res.violation(classify(text, "annotate-then-read-mismatch"), "after annotate the file declares something else than the tags outside its "
+                              "ignore blocks plus the request", text=text, after=(root / name).read_text()[:700], got=[sorted(got_l), sorted(got_c)],
+                              want=[sorted(want_l), sorted(want_c)])
+            res.cell("annotated-then-read")
         ctx.count("contract_evals_filter_ignore_block", con.evals.get("reuse.extract.filter_ignore_block", 0))
         con.evals["reuse.extract.filter_ignore_block"] = 0
         for v in con.drain():
